@@ -50,6 +50,9 @@ type Sched struct {
 	onFrame    func(cid string, data []byte)
 	onHTTPWait func(cid string)
 
+	throttles []*rescache.Throttle
+	thrSeen   map[*rescache.Throttle]bool
+
 	hang     bool
 	detached bool // counting mode: never park
 	closures int  // number of closures granted
@@ -73,6 +76,7 @@ func NewSched() *Sched {
 		Go:       s.hGo,
 		Frame:    s.hFrame,
 		HTTPWait: s.hHTTPWait,
+		Throttle: s.hThrottle,
 	}
 	return s
 }
@@ -139,6 +143,25 @@ func (s *Sched) hGo(f func()) bool {
 	s.nextT++
 	s.tasks = append(s.tasks, &task{id: s.nextT, f: f})
 	return true
+}
+
+func (s *Sched) hThrottle(t *rescache.Throttle) {
+	s.mu.Lock()
+	if s.thrSeen == nil {
+		s.thrSeen = map[*rescache.Throttle]bool{}
+	}
+	if !s.thrSeen[t] {
+		s.thrSeen[t] = true
+		s.throttles = append(s.throttles, t)
+	}
+	s.mu.Unlock()
+}
+
+// Throttles returns the throttles seen so far.
+func (s *Sched) Throttles() []*rescache.Throttle {
+	s.mu.Lock()
+	defer s.mu.Unlock()
+	return append([]*rescache.Throttle(nil), s.throttles...)
 }
 
 func (s *Sched) hFrame(_ interface{}, cid string, data []byte) {
